@@ -15,6 +15,9 @@
     rclose c       the remote end closes c (the read loop's Read will fail)
     disconnect p / disconnectAll      map entry removed, connection closed (no callback here)
     readerr c      readLoop: Read failed → `conn.Close(); m.handleDisconnect(conn, err)`
+    readSilent c   readLoop: a frame that was still in flight when the connection was closed locally is
+                   read; back at the top of its loop the read loop finds `conn.Done()` closed and
+                   returns WITHOUT calling handleDisconnect (no callback, no reconnect)
     learn / relay  the agent learns routes via p / creates a relay entry between p and q
 
   `fx = true`: code after fixes/C32-skip-stale-disconnect-callback.patch; `fx = false` before.
@@ -76,6 +79,7 @@ inductive Label where
   | disconnect (p : Nat)
   | disconnectAll (ps : List Nat)      -- the peer ids currently in the map
   | readerr (c : Nat)
+  | readSilent (c : Nat)
   | learn (p : Nat) (n : Nat)
   | relay (p q : Nat)
   deriving DecidableEq, Repr
@@ -116,6 +120,10 @@ def step (fx : Bool) (s : S) : Label → S × String
     let k := s.conn c
     if k.started && k.readErr && !k.readDone then
       (handleDisconnect fx (s.setConn c { k with closed := true, readDone := true }) c, "ok")
+    else (s, "noloop")
+  | .readSilent c =>
+    let k := s.conn c
+    if k.started && k.closed && !k.readDone then (s.setConn c { k with readDone := true }, "silent")
     else (s, "noloop")
   | .learn p n =>
     match s.peers p with
